@@ -653,9 +653,17 @@ def rule_forward(fx, rep):
                     if any("Board::piece_at" in t_ and "Move::dst" in t_ and pol is True for t_, pol in g):
                         kinds.add("capture")
                 elif d[0] == "call":
-                    e = show(("call", norm(callee_name(d[2]) or ""), tuple(bm.expr(a, expand_named=True, at=d[1]) for a in d[2]["args"])))
-                    if "PieceKind::Pawn" in e and "Game::remove_at" in e:
-                        kinds.add("pawn")
+                    ce = ("call", norm(callee_name(d[2]) or ""), tuple(bm.expr(a, expand_named=True, at=d[1]) for a in d[2]["args"]))
+                    co = cmp_op(ce)
+                    if co and co[0] == "Eq":
+                        x, y = deep_strip(co[1]), deep_strip(co[2])
+                        for p_, q_ in ((x, y), (y, x)):
+                            if isinstance(q_, tuple) and q_[0] == "agg" and str(q_[1]).endswith("PieceKind::Pawn") and isinstance(p_, tuple) and p_[0] == "field" and p_[2] == "kind":
+                                src = deep_strip(p_[1])
+                                # the piece tested is the one lifted from the source square itself, not a value derived from it
+                                # (e.g. replaced by the promoted piece)
+                                if isinstance(src, tuple) and src[0] == "call" and src[1].endswith("Game::remove_at") and sq_kind(src[2][1]) == "from":
+                                    kinds.add("pawn")
             good = kinds == {"capture", "pawn"}
     rep.obligation(good)
     if not good:
